@@ -1,3 +1,4 @@
+import CatiiProps.C02
 import CatiiProps.C08
 import CatiiProps.C09
 import CatiiProps.C10
